@@ -147,7 +147,7 @@ def independent_analysis(mod, classes):
                 continue
             t = hints[f.name]
             origin, args = typing.get_origin(t), typing.get_args(t)
-            optional = origin is typing.Union and len(args) == 2 and type(None) in args
+            optional = origin in (typing.Union, types.UnionType) and len(args) == 2 and type(None) in args
             container = origin in (list, set, tuple)
             type_valued = origin is type
             end = t
